@@ -777,8 +777,8 @@ func c12C(e *core.Env) {
 	}
 	up.K.TagPage = 2
 	up.K.ReferrersPage = 1
-	scen := e.Choose("gen", 7, "scenario")
-	names := []string{"upload-patch-4xx-location-range-forever", "upload-patch-5xx-forever", "taglist-next-link-self-loop", "referrers-next-link-self-loop", "upload-status-forever-stale", "blob-get-truncate-forever", "upload-patch-202-without-progress-forever"}
+	scen := e.Choose("gen", 8, "scenario")
+	names := []string{"upload-patch-4xx-location-range-forever", "upload-patch-5xx-forever", "taglist-next-link-self-loop", "referrers-next-link-self-loop", "upload-status-forever-stale", "blob-get-truncate-forever", "upload-patch-202-without-progress-forever", "upload-patch-reply-cycle-forever"}
 	fh := &foreverHost{inner: up}
 	status := []int{416, 400, 409, 404}[e.Choose("gen", 4, "status")]
 	switch names[scen] {
@@ -800,6 +800,29 @@ func c12C(e *core.Env) {
 			rs := simnet.NewResponse(202)
 			rs.Header.Set("Location", r.Path)
 			rs.Header.Set("Range", "0-0")
+			return rs
+		}
+	case "upload-patch-reply-cycle-forever":
+		// the server cycles through two or three replies to a chunk, none of which ever stores a byte beyond
+		// the range it announces: whatever the mixture, the session cannot make progress and has to end
+		type rep struct{ status, rangeEnd int }
+		var cyc []rep
+		var desc []string
+		for i, n := 0, 2+e.Choose("gen", 2, "cycleLen"); i < n; i++ {
+			st := []int{202, 416, 400, 500, 202, 416}[e.Choose("gen", 6, "cycleStatus")]
+			re := []int{0, 0, 15, 31}[e.Choose("gen", 4, "cycleRange")]
+			cyc = append(cyc, rep{st, re})
+			desc = append(desc, fmt.Sprintf("%d/0-%d", st, re))
+		}
+		simrt.Event("reply cycle %s", strings.Join(desc, ","))
+		fh.match = func(r *simnet.Request) bool { return r.Method == "PATCH" }
+		fh.reply = func(r *simnet.Request) *simnet.Response {
+			c := cyc[(fh.Matched-1)%len(cyc)]
+			rs := simnet.NewResponse(c.status)
+			if c.status != 500 {
+				rs.Header.Set("Location", r.Path)
+				rs.Header.Set("Range", fmt.Sprintf("0-%d", c.rangeEnd))
+			}
 			return rs
 		}
 	case "taglist-next-link-self-loop":
@@ -856,7 +879,7 @@ func c12C(e *core.Env) {
 	start := time.Now()
 	var err error
 	switch names[scen] {
-	case "upload-patch-4xx-location-range-forever", "upload-patch-5xx-forever", "upload-status-forever-stale", "upload-patch-202-without-progress-forever":
+	case "upload-patch-4xx-location-range-forever", "upload-patch-5xx-forever", "upload-status-forever-stale", "upload-patch-202-without-progress-forever", "upload-patch-reply-cycle-forever":
 		data := bytes.Repeat([]byte("0123456789abcdef"), 10) // 160 bytes > max put 64: chunked
 		_, err = rc.BlobPut(ctx, mk("up.test/proj/new"), descriptor.Descriptor{Digest: digest.FromBytes(data), Size: int64(len(data))}, bytes.NewReader(data))
 	case "taglist-next-link-self-loop":
